@@ -55,19 +55,25 @@ var ErrBudget = errors.New("reference step budget exhausted")
 
 // Matcher runs the specification over one text.
 type Matcher struct {
-	Text    []rune
-	Origin  int // what \G refers to
-	D       Dialect
-	Budget  int
-	steps   int
-	maxCap  int
-	Unicode bool // word boundary uses Unicode word characters (always true for regexp2)
+	Text          []rune
+	Origin        int // what \G refers to
+	D             Dialect
+	Budget        int
+	steps         int
+	maxCap        int
+	ASCIIBoundary bool // \b uses ASCII word characters (Go's regexp); the engine always uses Unicode ones
 }
 
 type budgetPanic struct{}
 
 func (m *Matcher) wordAt(i int) bool {
-	return i >= 0 && i < len(m.Text) && IsWord(m.Text[i])
+	if i < 0 || i >= len(m.Text) {
+		return false
+	}
+	if m.ASCIIBoundary {
+		return asciiWord(m.Text[i])
+	}
+	return IsWord(m.Text[i])
 }
 
 func (m *Matcher) boundary(p int) bool { return m.wordAt(p-1) != m.wordAt(p) }
